@@ -18,7 +18,7 @@ ASSUMPTIONS = unitkit.UNITS_STUB_TEXT + [
     "equalities are claimed up to 1e-9 relative (table factors are binary64 numbers the library multiplies in floating point)",
     "reciprocal conversions assume x != 0",
 ]
-OUTSIDE = ['array magnitudes (np.array(..., dtype=float) cannot carry proxies)', 'conversion INTO an expression carrying a numeric factor such as 60*s',
+OUTSIDE = ['arrays longer than 2 elements', 'conversion INTO an expression carrying a numeric factor such as 60*s',
            'temperature and logarithmic units (C05)', 'binary64 rounding / overflow']
 BOUNDS = {'quick': {'linear triples': 'one per unit symbol, 140 sampled prefixed symbols by VERIF_SEED', 'mismatch pairs': 260},
           'thorough': {'linear triples': 'every table unit with every admissible prefix occurs as source and as target', 'mismatch pairs': 'all ordered pairs of dimension-class representatives'}}
@@ -64,6 +64,29 @@ def run(v, O):
     q = Quantity(v.x, v.u)
     out = [('reciprocal', O.eq(q.value(v.w) * v.x * v.fu * v.fw, 1, 1e-9))]
     out.append(('reciprocal to()', O.eq(Quantity(v.x, v.u).to(v.w).value() * v.x * v.fu * v.fw, 1, 1e-9)))
+    return out
+'''
+ARRAY_SRC = '''
+def run(v, O):
+    xs = (v.x, v.x2)
+    q = Quantity(O.arr(list(xs)), v.u)
+    r1 = q.value(v.w)
+    r2 = q.value(v.w)
+    out = []
+    for i in (0, 1):
+        out.append((f'value(w)[{i}] element-wise', O.eq(r1[i], xs[i] * v.ruw, 1e-9)))
+        out.append((f'second value(w)[{i}] same', O.eq(r2[i], xs[i] * v.ruw, 1e-9)))
+        out.append((f'source[{i}] untouched by value()', O.eq(q.value()[i], xs[i], 1e-9)))
+    t = Quantity(O.arr(list(xs)), v.u).to(v.w)
+    for i in (0, 1):
+        out.append((f'to(w)[{i}]', O.eq(t.value()[i], xs[i] * v.ruw, 1e-9)))
+    t.to(v.u)
+    for i in (0, 1):
+        out.append((f'round trip[{i}]', O.eq(t.value()[i], xs[i], 1e-9)))
+    bad = Quantity(O.arr(list(xs)), v.u)
+    out.append(('array: other dimension refused', O.raises(lambda: bad.to('cd'))))
+    out.append(('array: unchanged after refusal', O.eq(bad.value()[1], v.x2)))
+    out.append(('array: units unchanged after refusal', O.same(bad.units(), Quantity(1, v.u).units())))
     return out
 '''
 NUMRAD_SRC = '''
@@ -121,6 +144,10 @@ def scenarios(tier, seed):
         ruw = unitkit.ref_parse(u).value() / unitkit.ref_parse(w).value()
         S.append(Scenario(f'linear/{u}->{w} via {m}', LINEAR_SRC, {'x': 'real'}, consts={'u': u, 'w': w, 'm': m, 'ruw': ruw}, preamble=PRE,
                           what=f'compound conversion {u} -> {w} (intermediate {m})', samples=1))
+    for u, w in [('km', 'm'), ('min', 's'), ('kJ', 'erg'), ('cm', 'km'), ('km/h', 'm/s'), ('lb', 'kg')]:
+        ruw = unitkit.ref_parse(u).value() / unitkit.ref_parse(w).value()
+        S.append(Scenario(f'array/{u}->{w}', ARRAY_SRC, {'x': 'real', 'x2': 'real'}, consts={'u': u, 'w': w, 'ruw': ruw}, preamble=PRE,
+                          what=f'element-wise conversion {u} -> {w} of an array quantity', samples=1))
     # ---- reciprocal -----------------------------------------------------------
     inv = [('s', 'Hz'), ('ms', 'kHz'), ('Hz', 's'), ('m', 'Ka'), ('cm', 'm-1'), ('Ohm', 'S'), ('mS', 'kOhm'), ('s', 'Bq'), ('m/s', 's/m'), ('kg/m3', 'cm3/g'), ('yr', 'nHz')]
     for u, w in inv:
